@@ -102,7 +102,16 @@ def run(ctx):
             ctx.undecided.append(f"API methods whose arguments could not be synthesised: {res['gaps']}")
         ctx.sample({f"{name}_schedule": [cases[len(cases) // 2][0], cases[len(cases) // 2][1][:30]]})
         for f in res["findings"]:
-            ctx.violation(f"Client/{name}/{f['cause']}/{'+'.join(f['fields'])}", {"kind": "client-trace", "family": name, **f})
+            fields = set(f["fields"])
+            # what Client.tla says about the stop callback (C07) and about device names (C06) is decided by those
+            # properties' checks, which run these families themselves; here it is only noted
+            if fields <= {"sa", "ns"}:
+                ctx.notes.append(f"stop-callback mismatch (C07) seen in family {name}: {sorted(fields)}")
+            elif name in ("names", "names_tlc") and not (fields & {"pi", "gate", "not_enabled", "hang"}):
+                ctx.notes.append(f"device-name mismatch (C06) seen in family {name}: {sorted(fields)}")
+            else:
+                ctx.violation(f"Client/{name}/{f['cause']}/{'+'.join(f['fields'])}", {"kind": "client-trace", "family": name, **f})
+        ctx.notes[:] = sorted(set(ctx.notes))[:20]
     ctx.assumptions += [
         "finish_connection is only called on a connection a successful start_connection left opened (precondition of the API)",
         "a start_connection issued while a previous attempt on the client is still unwinding may be refused (an attempt is in progress)",
